@@ -17,6 +17,10 @@ if SYM:
     def notrace():
         return NoTracing()
 
+    def stub_str_repr():
+        vlib.prelude.FLAGS["stub_str_repr"] = True
+        EXTRA_STUBS.append("repr() of a symbolic str returns \"'\" + s + \"'\" unrealised (exact for printable ASCII without quotes/backslash, which the harness pre-condition enforces)")
+
     def stub_int_format():
         vlib.prelude.FLAGS["stub_int_format"] = True
         EXTRA_STUBS.append("symbolic ints interpolated into f-strings format as '<int>' (kernel harnesses only: they build no names from ints)")
@@ -24,6 +28,9 @@ if SYM:
 else:
 
     def stub_int_format():
+        pass
+
+    def stub_str_repr():
         pass
 
 
@@ -49,10 +56,13 @@ def pick(x, lo, hi):
     (crosshair's realize() revisits the same value on several paths: measured 4.5x for three ints.)"""
     if _concrete(x):
         return x
-    for v in range(lo, hi):
-        if x == v:
-            return v
-    return hi
+    while lo < hi:  # binary search: log2(hi-lo) decisions per value, one leaf per value
+        mid = (lo + hi) // 2
+        if x <= mid:
+            hi = mid
+        else:
+            lo = mid + 1
+    return lo
 
 
 def pick_from(x, values):
